@@ -46,6 +46,24 @@ Section C09.
   Theorem C09_reachable_inv_every_state ops s : Inv s -> Forall (fun r => Inv (fst r)) (run_trace ops s).
   Proof. exact (reachable_inv_every_state pycast arrcast infer astype_dt itemseq_exn ops s). Qed.
 
+  (* exactly one CELL per period.  The model keeps shape and cells of a series separately; InvD s = every stored series holds
+     len(span) cells.  wf_operand = every ndarray operand (nested anywhere) has as many cells as its shape says - true of every
+     real ndarray.  Through arbitrary histories: *)
+  Theorem C09_invD_unfolded s :
+    InvD s <-> (forall x v, assoc x (vars s) = Some v -> length (vdata v) = length (span s)).
+  Proof. exact (invD_unfolded s). Qed.
+
+  Theorem C09_step_preserves_one_cell_per_period o s : wf_key_op o -> InvD s -> InvD (fst (step o s)).
+  Proof. exact (step_preserves_invD pycast arrcast infer astype_dt itemseq_exn o s). Qed.
+
+  Theorem C09_reachable_one_cell_per_period ops : Forall wf_key_op ops -> forall s, InvD s -> InvD (run ops s).
+  Proof. exact (reachable_invD pycast arrcast infer astype_dt itemseq_exn ops). Qed.
+
+  Theorem C09_init_model_one_cell_per_period k sp st d default NAMES kwargs :
+    wf_operand default -> Forall (fun kv : string * operand => wf_operand (snd kv)) kwargs ->
+    InvD (fst (init_model pycast arrcast infer astype_dt k sp st d default NAMES kwargs)).
+  Proof. exact (invD_init_model pycast arrcast infer astype_dt k sp st d default NAMES kwargs). Qed.
+
   (* a variable stays in the index and keeps its dtype through any history; the span never changes *)
   Theorem C09_dtype_kept ops s x :
     In x (index s) -> In x (index (run ops s)) /\ dtype_of (run ops s) x = dtype_of s x.
@@ -201,6 +219,10 @@ Print Assumptions C09_inv_init_model.
 Print Assumptions C09_step_preserves_inv.
 Print Assumptions C09_reachable_inv.
 Print Assumptions C09_reachable_inv_every_state.
+Print Assumptions C09_invD_unfolded.
+Print Assumptions C09_step_preserves_one_cell_per_period.
+Print Assumptions C09_reachable_one_cell_per_period.
+Print Assumptions C09_init_model_one_cell_per_period.
 Print Assumptions C09_dtype_kept.
 Print Assumptions C09_dtype_as_created.
 Print Assumptions C09_span_kept.
@@ -226,5 +248,6 @@ Print Assumptions C09_unknown_name_accepted_refuted.
 Print Assumptions C09_strict_values_setter_blocked_refuted.
 Print Assumptions C09_values_setter_reached.
 Print Assumptions w0_inv.
+Print Assumptions w0_invD.
 Print Assumptions strict_hypotheses_satisfiable.
 Print Assumptions m0_inv.
